@@ -32,6 +32,10 @@ package main
 //@   requires t != nil && taskRunner != nil && runnerOK(taskRunner) && taskOK(t) && compiledClosed()
 //@   modifies *
 //@   ensures #C14.no-shutdown-between-targets calls(Finish) == 0 && calls(Run) == 1
+//@   ghostlocal runFailed bool
+//@   ensures #C07.run-failure-is-returned runFailed ==> result != nil
+//@   callsite Run
+//@     ghost runFailed = result != nil
 //@ func printSummary
 //@   requires g != nil
 //@   modifies *
@@ -39,6 +43,10 @@ package main
 //@   requires taskRunner != nil && schedulable(g)
 //@   modifies *
 //@   ensures #C14.no-shutdown-between-targets calls(Finish) == 0 && calls(Schedule) == 1
+//@   ghostlocal runFailed bool
+//@   ensures #C07.run-failure-is-returned runFailed ==> result != nil
+//@   callsite Schedule
+//@     ghost runFailed = result != nil
 // the goroutine that forwards an abort to the scheduler
 //@ func runPipeline$1
 //@   requires sd != nil && sd.taskRunner != nil
@@ -52,10 +60,14 @@ package main
 //@   modifies *
 //@   ensures #C07.failed-target-exits-nonzero exitsNonZero(err)
 //@   ensures #C07.unknown-target-is-an-error old(!(name in cfg.Pipelines) && !(name in cfg.Tasks)) ==> err != nil
+//@   ghostlocal targetFailed bool
+//@   ensures #C07.target-failure-is-returned targetFailed ==> err != nil
 //@   callsite runTask
 //@     assumepre taskOK(arg0) // tasks in the loaded configuration have Env and Variables (built by buildTask)
+//@     ghost targetFailed = targetFailed || result != nil
 //@   callsite runPipeline
 //@     assumepre schedulable(arg0) // established by buildPipeline for every registered pipeline (C18), fresh run
+//@     ghost targetFailed = targetFailed || result != nil
 
 // ---- C07 / C10: targets run in command-line order, nothing after the first failure, nothing after "--"
 //@ pred beforeDash(args []string, n int) := forall j int :: 0 <= j && j < n ==> args[j] != "--"
